@@ -280,3 +280,75 @@ func (f *File) BlockAt(base int64) int {
 	}
 	return -1
 }
+
+// FileFromData builds a BGZF file holding data cut into members at the given
+// (sorted, distinct) cut points; with emptyP percent probability an empty
+// member is inserted at a cut. The EOF marker is appended when eof is set.
+func FileFromData(rng *rand.Rand, data []byte, cuts []int, emptyP int, eof bool) *File {
+	f := &File{}
+	add := func(seg []byte) {
+		m, err := oracle.EncodeMember(seg, oracle.MemberOpts{Level: rng.Intn(11) - 1, OS: 0xff})
+		if err != nil {
+			panic(err)
+		}
+		f.Blocks = append(f.Blocks, FBlock{Base: int64(len(f.Bytes)), Size: len(m), Len: len(seg), Start: int64(len(f.Flat))})
+		f.Bytes = append(f.Bytes, m...)
+		f.Flat = append(f.Flat, seg...)
+	}
+	last := 0
+	for _, c := range append(append([]int(nil), cuts...), len(data)) {
+		if c <= last || c > len(data) {
+			continue
+		}
+		for c-last > 60000 { // keep members within the format's limit
+			add(data[last : last+60000])
+			last += 60000
+		}
+		add(data[last:c])
+		last = c
+		if emptyP > 0 && rng.Intn(100) < emptyP {
+			add(nil)
+		}
+	}
+	if eof {
+		f.Blocks = append(f.Blocks, FBlock{Base: int64(len(f.Bytes)), Size: len(oracle.EOFMarker), Len: 0, Start: int64(len(f.Flat))})
+		f.Bytes = append(f.Bytes, oracle.EOFMarker...)
+		f.HasEOF = true
+	}
+	return f
+}
+
+// VOffset returns the virtual offset of logical position p in the form a
+// reader reports for the start of a read: the block holding byte p.
+func (f *File) VOffset(p int64) (base int64, off int) {
+	for _, b := range f.Blocks {
+		if b.Len > 0 && p >= b.Start && p < b.Start+int64(b.Len) {
+			return b.Base, int(p - b.Start)
+		}
+	}
+	// end of data: the end of the last data block
+	for i := len(f.Blocks) - 1; i >= 0; i-- {
+		if f.Blocks[i].Len > 0 {
+			return f.Blocks[i].Base, f.Blocks[i].Len
+		}
+	}
+	return 0, 0
+}
+
+// VOffsetEnd returns the forms of the virtual offset of an interval end e:
+// (block holding byte e-1, offset) and, when e is the start of a data block,
+// (that block, 0).
+func (f *File) VOffsetEnd(e int64) [][2]int64 {
+	var out [][2]int64
+	for _, b := range f.Blocks {
+		if b.Len > 0 && e > b.Start && e <= b.Start+int64(b.Len) {
+			out = append(out, [2]int64{b.Base, e - b.Start})
+		}
+	}
+	for _, b := range f.Blocks {
+		if b.Len > 0 && e == b.Start && e > 0 {
+			out = append(out, [2]int64{b.Base, 0})
+		}
+	}
+	return out
+}
